@@ -101,7 +101,6 @@ class ExactAlgorithmPulp(RankAggAlgorithm, PairwiseBasedAlgorithm):
                          scoring_scheme=scoring_scheme,
                          att={ConsensusFeature.NECESSARILY_OPTIMAL: True,
                               ConsensusFeature.ASSOCIATED_ALGORITHM: self.get_full_name(),
-                              ConsensusFeature.KEMENY_SCORE: prob.objective.value(),
                               })
 
     @staticmethod
